@@ -18,7 +18,7 @@ from props import c05gen as G
 
 HEADER = 'From Coq Require Import List ZArith Bool.\nFrom DV Require Import C05.Model.\nImport ListNotations.\nOpen Scope Z_scope.\n'
 GUARD = 'guard %d 8 feel'
-LIMIT_MS = 20000
+LIMIT_MS = 10000
 
 
 def regen():
@@ -43,19 +43,20 @@ def klass(r):
     return 'garbled'
 
 
-def confirm(ctx, req, rel):
-    """A panic is deterministic; a timeout / process death may be an effect of machine load: the request is run again alone
-    with a six times longer limit and only a repeated failure counts."""
-    r = ctx.run_impl(GUARD % (6 * LIMIT_MS), [req], release=rel, shards=1)[0]
-    return r
-
-
 def settle(ctx, req, ri, rel):
+    """A panic is deterministic; a timeout / process death may be an effect of machine load: the request is run again alone with a
+    four times longer limit and only a repeated failure counts.  After three confirmed failures the rest is taken as it is
+    (a real hang would otherwise cost minutes per case)."""
     k = klass(ri)
     if k in ('timeout', 'crash', 'garbled'):
-        r2 = confirm(ctx, req, rel)
+        st = ctx.__dict__.setdefault('_settle', {'confirmed': 0})
+        if st['confirmed'] >= 3 or len(ctx.violations) >= 20:
+            return ri
+        r2 = ctx.run_impl(GUARD % (4 * LIMIT_MS), [req], release=rel, shards=1)[0]
         if klass(r2) == 'ok':
             ctx.notes.append('a %s under load was not reproduced when the request ran alone: %s' % (k, json.dumps(req)[:160]))
+        else:
+            st['confirmed'] += 1
         return r2
     return ri
 
